@@ -21,7 +21,7 @@
       with them, Properties/C12.v).
 
     The tables of util/constants.py the code consults are parameters ([tables]); their current values
-    are tabulated into Gen/C12/Tables.v on every run.  The four repairs delivered with this property
+    are tabulated into Gen/C12/Tables.v on every run.  The five repairs delivered with this property
     are switches of [cfg], so that both the repaired and the original behaviour are transcribed:
     the theorems are about [fixed], the refutations about the original code. *)
 From Coq Require Import List Bool Arith ZArith.
@@ -41,11 +41,18 @@ Record tables := {
   default_kind : nat                   (* Patch(name).kind, as an index into the harness' kind pool *)
 }.
 
-Record cfg := { fx_grade : bool; fx_clear : bool; fx_backport : bool; fx_reset : bool }.
-Definition fixed : cfg := {| fx_grade := true; fx_clear := true; fx_backport := true; fx_reset := true |}.
-Definition original : cfg := {| fx_grade := false; fx_clear := false; fx_backport := false; fx_reset := false |}.
-(** the code with the first three repairs but before fixes/C12-4.diff (grade() did not reset) *)
-Definition before_reset : cfg := {| fx_grade := true; fx_clear := true; fx_backport := true; fx_reset := false |}.
+Record cfg := { fx_grade : bool; fx_clear : bool; fx_backport : bool; fx_reset : bool; fx_rank : bool }.
+Definition fixed : cfg :=
+  {| fx_grade := true; fx_clear := true; fx_backport := true; fx_reset := true; fx_rank := true |}.
+Definition original : cfg :=
+  {| fx_grade := false; fx_clear := false; fx_backport := false; fx_reset := false; fx_rank := false |}.
+(** the code with the other repairs but before fixes/C12-4.diff (grade() did not reset) *)
+Definition before_reset : cfg :=
+  {| fx_grade := true; fx_clear := true; fx_backport := true; fx_reset := false; fx_rank := true |}.
+(** the code with the other repairs but before fixes/C12-5b.diff ('boundary' was written in dictionary order: the
+    patches kept by clear precede the re-created ones) *)
+Definition before_rank : cfg :=
+  {| fx_grade := true; fx_clear := true; fx_backport := true; fx_reset := true; fx_rank := false |}.
 
 (** ** user entities *)
 Record op := {
@@ -80,19 +87,27 @@ Record st := {
   verts : list vtx;                 (* VertexList.vertices (= .duplicated, see Mesh._add_vertices) *)
   blocks : list blk;                (* BlockList.blocks *)
   patches : list pat;               (* PatchList.patches, insertion order *)
+  prank : list nat;                 (* PatchList.rank: the names in the order of their first appearance (kept by clear) *)
   dflt : option (nat * nat);        (* PatchList.default *)
   merged : list (nat * nat)         (* PatchList.merged *)
 }.
 
 Definition init (store : list (nat * op)) : st :=
-  {| depot := []; ops := store; deleted := []; verts := []; blocks := []; patches := []; dflt := None; merged := [] |}.
+  {| depot := []; ops := store; deleted := []; verts := []; blocks := []; patches := []; prank := [];
+     dflt := None; merged := [] |}.
 
 Definition with_lists (s : st) (v : list vtx) (b : list blk) (p : list pat) : st :=
   {| depot := depot s; ops := ops s; deleted := deleted s; verts := v; blocks := b; patches := p;
-     dflt := dflt s; merged := merged s |}.
+     prank := prank s; dflt := dflt s; merged := merged s |}.
 Definition with_ops (s : st) (o : list (nat * op)) : st :=
   {| depot := depot s; ops := o; deleted := deleted s; verts := verts s; blocks := blocks s; patches := patches s;
-     dflt := dflt s; merged := merged s |}.
+     prank := prank s; dflt := dflt s; merged := merged s |}.
+Definition with_rank (s : st) (r : list nat) : st :=
+  {| depot := depot s; ops := ops s; deleted := deleted s; verts := verts s; blocks := blocks s; patches := patches s;
+     prank := r; dflt := dflt s; merged := merged s |}.
+Definition with_user (s : st) (d : list nat) (x : list nat) (df : option (nat * nat)) (mg : list (nat * nat)) : st :=
+  {| depot := d; ops := ops s; deleted := x; verts := verts s; blocks := blocks s; patches := patches s;
+     prank := prank s; dflt := df; merged := mg |}.
 
 Definition mem (n : nat) (l : list nat) : bool := existsb (Nat.eqb n) l.
 Fixpoint get_op (store : list (nat * op)) (k : nat) : option op :=
@@ -177,6 +192,16 @@ Definition add_op_patches (tb : tables) (ps : list pat) (o : op) (idx : list nat
     | None => ps
     end) orients ps.
 
+(** PatchList.rank: a name gets the next rank when its patch is created (PatchList.get) and it has none yet.  During an
+    assembly the patches that exist at the start keep existing, so a patch is created exactly for the names that are
+    not among them (a second creation of the same name meets a ranked name: rank_add does nothing) *)
+Definition pfind (ps : list pat) (n : nat) : option pat := find (fun p => p_name p =? n) ps.
+Definition has_patch (ps : list pat) (n : nat) : bool := existsb (fun p => p_name p =? n) ps.
+Definition rank_add (r : list nat) (n : nat) : list nat := if mem n r then r else r ++ [n].
+Definition op_names (o : op) : list nat := somes (map (fun j => nth j (o_pat o) None) orients).
+Definition asm_rank (ps0 : list pat) (l : list (nat * op)) (r : list nat) : list nat :=
+  fold_left (fun r n => if has_patch ps0 n then r else rank_add r n) (flat_map (fun ko => op_names (snd ko)) l) r.
+
 (** ** Mesh.assemble: one operation, then all of them *)
 Definition lists := (list vtx * list blk * list pat)%type.
 Definition asm_op (tb : tables) (slaves : list nat) (L : lists) (ko : nat * op) : lists :=
@@ -188,7 +213,8 @@ Definition slaves (s : st) : list nat := map snd (merged s).
 Definition asm_all (tb : tables) (sl : list nat) (l : list (nat * op)) (L : lists) : lists :=
   fold_left (asm_op tb sl) l L.
 Definition assemble (tb : tables) (s : st) : st :=
-  let '(V, B, P) := asm_all tb (slaves s) (live_ops s) (verts s, blocks s, patches s) in with_lists s V B P.
+  let '(V, B, P) := asm_all tb (slaves s) (live_ops s) (verts s, blocks s, patches s) in
+  with_rank (with_lists s V B P) (asm_rank (patches s) (live_ops s) (prank s)).
 
 Definition is_assembled (s : st) : bool := negb (length (verts s) =? 0).
 
@@ -251,10 +277,14 @@ Definition blk_simple (b : blk) : bool :=
 Definition blk_printed (b : blk) : list (list nat) :=
   if blk_simple b then map (fun a => nth (4 * a) (b_wg b) []) axes
   else map (fun i => nth i (b_wg b) []) (seq 0 12).
-Definition render (s : st) : file :=
+(** PatchList.description: by rank since fixes/C12-5b.diff, in dictionary order before *)
+Definition by_rank (r : list nat) (ps : list pat) : list pat :=
+  flat_map (fun n => match pfind ps n with Some p => [p] | None => [] end) r.
+Definition render (c : cfg) (s : st) : file :=
   {| f_verts := map v_pos (verts s);
      f_blocks := map (fun b => (b_verts b, blk_counts b, blk_printed b)) (blocks s);
-     f_patches := map (fun p => (p_name p, p_kind p, p_set p, p_sides p)) (patches s);
+     f_patches := map (fun p => (p_name p, p_kind p, p_set p, p_sides p))
+                      (if fx_rank c then by_rank (prank s) (patches s) else patches s);
      f_default := dflt s;
      f_merged := merged s |}.
 
@@ -302,7 +332,7 @@ Definition write_with (orc : oracle) (c : cfg) (tb : tables) (s : st) : outcome 
   let bs := map pblk (blocks s1) in
   match grade_cfg c bs (fst (orc bs)) (snd (orc bs)) (gstate (blocks s1)) with
   | C12_Regrade.GOk p =>
-      let s2 := with_lists s1 (verts s1) (store_gr p (blocks s1)) (patches s1) in Ok s2 [EFile (render s2)]
+      let s2 := with_lists s1 (verts s1) (store_gr p (blocks s1)) (patches s1) in Ok s2 [EFile (render c s2)]
   | C12_Regrade.GUndefined => Err E_undefined
   | C12_Regrade.GInconsistent => Err E_inconsistent
   | _ => Err E_model
@@ -321,19 +351,17 @@ Definition backport (c : cfg) (tb : tables) (s : st) : outcome :=
 
 Definition step (c : cfg) (tb : tables) (s : st) (x : call) : outcome :=
   match x with
-  | Add k => Ok {| depot := depot s ++ [k]; ops := ops s; deleted := deleted s; verts := verts s; blocks := blocks s;
-                   patches := patches s; dflt := dflt s; merged := merged s |} []
-  | Delete k => Ok {| depot := depot s; ops := ops s; deleted := k :: deleted s; verts := verts s; blocks := blocks s;
-                      patches := patches s; dflt := dflt s; merged := merged s |} []
+  | Add k => Ok (with_user s (depot s ++ [k]) (deleted s) (dflt s) (merged s)) []
+  | Delete k => Ok (with_user s (depot s) (k :: deleted s) (dflt s) (merged s)) []
   | Assemble => Ok (assemble tb s) []
   | Move i d => Ok (with_lists s (move_vertex (verts s) i d) (blocks s) (patches s)) []
   | Backport => backport c tb s
   | Clear => Ok (clear c s) []
-  | ModifyPatch n k set => Ok (with_lists s (verts s) (blocks s) (modify tb (patches s) n k set)) []
-  | SetDefault n k => Ok {| depot := depot s; ops := ops s; deleted := deleted s; verts := verts s; blocks := blocks s;
-                            patches := patches s; dflt := Some (n, k); merged := merged s |} []
-  | Merge m sl => Ok {| depot := depot s; ops := ops s; deleted := deleted s; verts := verts s; blocks := blocks s;
-                        patches := patches s; dflt := dflt s; merged := merged s ++ [(m, sl)] |} []
+  | ModifyPatch n k set =>
+      Ok (with_rank (with_lists s (verts s) (blocks s) (modify tb (patches s) n k set))
+                    (if has_patch (patches s) n then prank s else rank_add (prank s) n)) []
+  | SetDefault n k => Ok (with_user s (depot s) (deleted s) (Some (n, k)) (merged s)) []
+  | Merge m sl => Ok (with_user s (depot s) (deleted s) (dflt s) (merged s ++ [(m, sl)])) []
   | Write => write c tb s
   end.
 
@@ -353,8 +381,7 @@ Fixpoint steps (c : cfg) (tb : tables) (s : st) (h : list call) : option st :=
   | x :: r => match step c tb s x with Ok s' _ => steps c tb s' r | Err _ => None end
   end.
 
-(** ** comparison with the parsed output of the implementation (patches as a set: their order in
-    'boundary' is not compared) *)
+(** ** comparison with the parsed output of the implementation ('boundary' in the order written) *)
 Definition lists_eqb (l m : list (list nat)) : bool :=
   (length l =? length m) && forallb (fun p => list_eqb (fst p) (snd p)) (combine l m).
 Definition pos_list_eqb (l m : list pos) : bool :=
@@ -372,8 +399,7 @@ Definition file_eqb (a b : file) : bool :=
   && (length (f_blocks a) =? length (f_blocks b))
   && forallb (fun p => block_eqb (fst p) (snd p)) (combine (f_blocks a) (f_blocks b))
   && (length (f_patches a) =? length (f_patches b))
-  && forallb (fun p => existsb (patch_eqb p) (f_patches b)) (f_patches a)
-  && forallb (fun p => existsb (patch_eqb p) (f_patches a)) (f_patches b)
+  && forallb (fun p => patch_eqb (fst p) (snd p)) (combine (f_patches a) (f_patches b))
   && opt_pair_eqb (f_default a) (f_default b)
   && (length (f_merged a) =? length (f_merged b))
   && forallb (fun p => pair_eqb (fst p) (snd p)) (combine (f_merged a) (f_merged b)).
